@@ -98,6 +98,8 @@ def _literal_dicts(node):
             v = ast.Dict(keys=[ast.Constant(k.arg) for k in v.keywords], values=[k.value for k in v.keywords])
         if isinstance(v, ast.Dict) and v.keys and all(k is not None and A.const_str(k) is not None for k in v.keys):
             out[name] = v
+        elif isinstance(v, (ast.Tuple, ast.List)) and v.elts and not any(isinstance(x, ast.Starred) for x in v.elts):
+            out[name] = v  # a literal sequence walked by a loop
     return out
 
 
@@ -115,7 +117,9 @@ def _plain_stmt(mod, tables):
             tbl, view_ = it, "keys"
             if isinstance(it, ast.Call) and isinstance(it.func, ast.Attribute) and it.func.attr in ("items", "keys", "values") and not it.args and not it.keywords:
                 tbl, view_ = it.func.value, it.func.attr
-            if isinstance(tbl, ast.Name) and tbl.id in tables:
+            if isinstance(it, ast.Name) and isinstance(tables.get(it.id), (ast.Tuple, ast.List)):
+                it = tables[it.id]
+            elif isinstance(tbl, ast.Name) and isinstance(tables.get(tbl.id), ast.Dict):
                 d = tables[tbl.id]
                 rows_ = {"items": [ast.Tuple(elts=[k, v], ctx=ast.Load()) for k, v in zip(d.keys, d.values)], "keys": list(d.keys), "values": list(d.values)}[view_]
                 it = ast.Tuple(elts=rows_, ctx=ast.Load())
@@ -149,7 +153,7 @@ def _plain_stmt(mod, tables):
             for c in [x for x in A.walk_local(st) if isinstance(x, ast.Call)]:
                 kws = []
                 for k in c.keywords:
-                    if k.arg is None and isinstance(k.value, ast.Name) and k.value.id in tables:
+                    if k.arg is None and isinstance(k.value, ast.Name) and isinstance(tables.get(k.value.id), ast.Dict):
                         d = tables[k.value.id]
                         if all(A.const_str(kk).isidentifier() for kk in d.keys):
                             kws += [ast.keyword(arg=A.const_str(kk), value=vv) for kk, vv in zip(d.keys, d.values)]
